@@ -46,7 +46,7 @@ def showState (d : DS) : String :=
 def showOutcome (j : JobRec) : String :=
   match j.outcome with
   | .ok => s!"ok{j.nmut}"
-  | .killed => s!"killed@{j.nmut}"
+  | .killed => s!"died@{j.nmut}"
   | .crashed => s!"crashed@{j.nmut}"
 
 def showJob (j : JobRec) : String :=
@@ -72,6 +72,7 @@ def parseFault (s : String) : Option Fault :=
         if c == 'k' then some { job := j, pos := p, kind := .kill }
         else if c == 'c' then some { job := j, pos := p, kind := .crash }
         else if c == 'p' then some { job := j, pos := p, kind := .torn }
+        else if c == 'x' then some { job := j, pos := p, kind := .cancel }
         else none
       | none => none
     | _, _ => none
@@ -108,6 +109,15 @@ def recFailPaths (d : DS) (i : Nat) : List Path :=
     | none => []
   | [] => []
 
+def cycleOpts (d : DS) : List String → Option (List Path)
+  | [] => some []
+  | o :: rest =>
+    match o.splitOn "=", cycleOpts d rest with
+    | ["recfail", i], some acc => (nat? i).map (fun i => recFailPaths d i ++ acc)
+    | ["age", n], some acc => (nat? n).map (fun _ => acc)
+    | ["zerots"], some acc => some acc
+    | _, _ => none
+
 def doCycle (d : DS) (plan : List Fault) (failing : List Path) : DS × String :=
   let r := cycle (cfgOf d) plan failing d.st
   ({ d with st := r.st }, "jobs=" ++ joinWith " " (r.log.map showJob))
@@ -126,16 +136,11 @@ def stepC09 (d : DS) (fs : List String) : DS × String :=
       ({ d with st := { d.st with files := fs' }, orig := fs' }, s!"ok {rs.length}")
     | _, _, _ => (d, "bad-op")
   | ["scan"] => (d, showState d)
-  | ["cycle", plan] =>
-    match parsePlan plan with
-    | some p => doCycle d p []
-    | none => (d, "bad-op")
-  | ["cycle", plan, rf] =>
-    match parsePlan plan, (rf.splitOn "=") with
-    | some p, ["recfail", i] =>
-      match nat? i with
-      | some i => doCycle d p (recFailPaths d i)
-      | none => (d, "bad-op")
+  | "cycle" :: plan :: opts =>
+    -- options: recfail=<i> (a recovery delete fails), age=<seconds> / zerots (time passed since the
+    -- manifest was written / zero created_at: recovery does not depend on a manifest's age)
+    match parsePlan plan, cycleOpts d opts with
+    | some p, some failing => doCycle d p failing
     | _, _ => (d, "bad-op")
   | ["check"] => (d, checkLine d)
   | _ => (d, "bad-op")
